@@ -10,7 +10,7 @@ TRACKING_ITEMS = [["utm_source", "tw"], ["utm_campaign", "x y"], ["UTM_MEDIUM", 
                   ["source", "twitter"], ["m", "1"], ["s", "09"], ["mtm_kwd", "k"], ["at_medium", "c"], ["xtor", "AD-1"], ["echobox", None],
                   ["feature", "share"], ["__twitter_impression", "true"], ["spref", "tw"], ["platform", "hootsuite"], ["sid", "1"], ["mkt_tok", "e"]]
 AMP_ITEMS = [["amp", None], ["amp", "1"], ["amp_js_v", "0.1"], ["outputtype", "amp"], ["output", "amp"], ["mode", "amp"]]
-LOOKALIKE_ITEMS = [["source", "twit"], ["source", ""], ["source", None], ["source", "t"], ["ref", "f"], ["ref", ""], ["ref", None], ["m", ""], ["m", None], ["s", ""], ["s", None],
+LOOKALIKE_ITEMS = [["\u017fid", "5"], ["\u017fource", "twitter"], ["\u212aey", "1"], ["source", "twit"], ["source", ""], ["source", None], ["source", "t"], ["ref", "f"], ["ref", ""], ["ref", None], ["m", ""], ["m", None], ["s", ""], ["s", None],
                    ["utm", "1"], ["utmx", "1"], ["ref", "other"], ["s", "123"], ["s", "ab"], ["m", "2"], ["source", "rss"], ["xfbclid", "1"],
                    ["sessionids", "1"], ["at", "1"], ["amplify", "1"], ["output", "xml"], ["gaa", "1"], ["features", "1"]]
 PER_DOMAIN_ITEMS = [["t", "10s"], ["si", "abc"], ["_rdr", None], ["_rdc", "1"], ["ab_channel", "X"]]   # irrelevant on youtube / facebook only
@@ -37,7 +37,7 @@ def norm_structs(draw, dirty=False, platform_hosts=False, userinfo=True, lookali
     if platform_hosts and draw(st.integers(0, 2)) == 0:
         base = draw(st.sampled_from(["facebook.com", "youtube.com", "youtu.be", "m.facebook.com", "fr-fr.facebook.com", "notyoutube.com", "myfacebook.com"]))
     else:
-        labs = [draw(st.sampled_from(G.ASCII_LABELS + (G.IDN_LABELS + [G.puny(l) for l in G.IDN_LABELS[:2]] + ["xn--99999", "xn--0"] if idn else [])))
+        labs = [draw(st.sampled_from(G.ASCII_LABELS + (G.IDN_LABELS + G.CASEFOLD_LABELS + [G.puny(l) for l in G.IDN_LABELS[:2]] + ["xn--99999", "xn--0", "xn--amp-tlrama-f7ab"] if idn else [])))
                 for _ in range(draw(st.integers(1, 2)))]
         if lookalikes and draw(st.integers(0, 5)) == 0 and labs[0] in G.ASCII_LABELS:
             # 'amp-' is only glued onto plain ASCII labels ('amp-xn--..' is not a meaningful A-label)
@@ -45,7 +45,9 @@ def norm_structs(draw, dirty=False, platform_hosts=False, userinfo=True, lookali
         base = ".".join(labs + [draw(st.sampled_from(G.TLDS))])
     host = ".".join(pre + [base])
     if draw(st.integers(0, 5)) == 0:
-        host = draw(st.sampled_from([host.upper(), host.title()]))
+        up = draw(st.sampled_from([host.upper(), host.title()]))
+        if up.lower() == host.lower():   # case variants only where the case mapping round-trips (not for a final sigma or a sharp s)
+            host = up
     s["host"] = host
     s["port"] = draw(st.sampled_from([None, None, None, None, None, None, "80", "443", "8080", "", "8443", "0", "080", "08080"]))
     # path
